@@ -44,12 +44,12 @@ func storeFor(cs *core.Case) *mstore.Store {
 
 // engineSymptom turns the universal oracles into a symptom.
 func engineSymptom(o *core.Outcome) (string, string) {
-	if o.Hang {
-		return "hang", "Exec did not return within the hang guard"
-	}
 	if len(o.Panics) > 0 {
 		p := o.Panics[0]
 		return "panic@" + p.Where, p.Val
+	}
+	if o.Hang {
+		return "hang", "Exec did not return within the hang guard"
 	}
 	if o.Leaked > 0 {
 		return "leak", fmt.Sprintf("%d engine goroutines alive after the grace period", o.Leaked)
